@@ -261,6 +261,40 @@ def run(ctx: Ctx):
     if all(x.startswith("EXC:") for x in mixed[0][:24]):
         raise Machinery("mixed programs: every mixed list was refused (vacuous)")
 
+    # ------------------------------------------------------------- subcomponents keep their insertion order, also when a helper adds some
+    for prov in ("zoneinfo", "pytz"):
+        tzp.use(prov)
+        try:
+            calx = Calendar()
+            parts_ = []
+            for i, (kind, z) in enumerate((("ev", "Europe/Berlin"), ("tz", "Custom/Own"), ("todo", "America/New_York"), ("ev", "Asia/Tokyo"), ("tz", "Europe/Berlin"))):
+                if kind == "tz":
+                    from icalendar import Timezone as _Tz
+                    c = _Tz.from_tzid(z, first_date=date(2020, 1, 1), last_date=date(2021, 1, 1)) if "/" in z and not z.startswith("Custom") else \
+                        Component.from_ical("BEGIN:VTIMEZONE\r\nTZID:Custom/Own\r\nBEGIN:STANDARD\r\nDTSTART:19700101T000000\r\nTZOFFSETFROM:+0200\r\nTZOFFSETTO:+0200\r\nEND:STANDARD\r\nEND:VTIMEZONE\r\n")
+                else:
+                    from icalendar import Todo as _Todo
+                    c = Event() if kind == "ev" else _Todo()
+                    c.add("uid", f"u{i}")
+                    c.add("dtstart", tzp.localize(datetime(2020, 6, 1, 10), z))
+                calx.add_component(c)
+                parts_.append(c)
+            calx.add_missing_timezones(first_date=date(2020, 1, 1), last_date=date(2021, 1, 1))
+            after = calx.subcomponents
+            ctx.evaluations += 1
+            ctx.case(("order-after-helper", prov), True)
+            if len(after) < len(parts_) or any(a is not b for a, b in zip(after, parts_)) or any(x.name != "VTIMEZONE" for x in after[len(parts_):]):
+                ctx.fail("P:C10:unsorted-insertion-order", {"what": "add_missing_timezones changed the order of existing subcomponents", "provider": prov},
+                         [x.name for x in after], [x.name for x in parts_] + ["VTIMEZONE", "..."])
+            b = calx.to_ical()
+            seq = [ln for ln in b.split(b"\r\n") if ln.startswith(b"BEGIN:V")][1:]
+            want_seq = [b"BEGIN:" + x.name.encode() for x in after]
+            if seq != want_seq:
+                ctx.fail("P:C10:unsorted-insertion-order", {"what": "subcomponents are not serialised in list order", "provider": prov},
+                         [x.decode() for x in seq], [x.decode() for x in want_seq])
+        finally:
+            tzp.use_default()
+
     # ------------------------------------------------------------- InvSwap on names that a "smarter" sort might consider equal
     # (zero padding, digit runs, case, accents, punctuation): swapping two insertions never changes the sorted output
     tie = ["X-ROOM-1", "X-ROOM-01", "X-ROOM-001", "X-ITEM-2", "X-ITEM-10", "X-ITEM-010", "X-E", "X-\u00c9", "X-E2", "X_1", "X.1", "X-1", "X--1", "X-A-B", "X-AB"]
@@ -297,6 +331,8 @@ def run(ctx: Ctx):
     texts = ["BEGIN:VEVENT\r\nDTSTART:20240501T100000Z\r\nBEGIN:VALARM\r\nTRIGGER:20240501T120000Z\r\nACKNOWLEDGED:20240501T120000Z\r\nEND:VALARM\r\nEND:VEVENT\r\n",
              "BEGIN:VTODO\r\nDUE;VALUE=DATE:20240501\r\nRDATE:20240501,20240502T100000\r\nX-D:20240501T100000Z\r\nDURATION:PT1H\r\nEND:VTODO\r\n",
              "BEGIN:VCALENDAR\r\nBEGIN:X-A\r\nB:2\r\nA:1\r\nBEGIN:VEVENT\r\nSUMMARY:s\r\nCATEGORIES:b,a\r\nATTENDEE;ROLE=CHAIR;CN=x:mailto:a\r\nEND:VEVENT\r\nEND:X-A\r\nEND:VCALENDAR\r\n"]
+    # list-valued parameters whose values are not in ascending order (a sorting serialiser must not touch them)
+    texts.append("BEGIN:VEVENT\r\nATTENDEE;MEMBER=\"mailto:z@x\",\"mailto:a@x\";DELEGATED-TO=\"mailto:m@x\",\"mailto:b@x\";X-L=q,c,k:mailto:p@x\r\nEND:VEVENT\r\n")
     texts += [open(f, "rb").read().decode("utf-8", "replace") for f in sorted(_glob.glob(str(REPO / "src/icalendar/tests/calendars/*.ics")))[:: 4 if ctx.quick else 1]]
     trees = []
     for t in texts:
